@@ -126,6 +126,17 @@ Theorem cnfshuffle_repair_is_local : forall env argv stdin oracle,
 Proof. exact shm_repaired_agrees. Qed.
 Print Assumptions cnfshuffle_repair_is_local.
 
+(* C06 for the tool: as found, it reports an error exactly when argparse rejects the command line or the DIMACS
+   reader rejects the text (standard input: lines end at "\n" only; a file named by -i: universal newlines).  A text
+   the reader accepts is never answered by an error, whatever the stream of draws is *)
+Theorem cnfshuffle_clean_error_iff : forall env argv stdin oracle,
+  cnfshuffle_main_env env argv stdin oracle = ShmCliError <->
+  shm_parse_args env argv = PaError \/
+  exists o, shm_parse_args env argv = PaOk o /\ shm_alias o = false /\
+            exists e k, parse_dimacs (shm_universal o) (shm_input_text env o stdin) = Err e k.
+Proof. exact shm_clean_error_iff. Qed.
+Print Assumptions cnfshuffle_clean_error_iff.
+
 (* a run that gets past the command line and the reader writes a formula as soon as the stream holds all
    its draws (Shuffle never rejects what was drawn: the drawn sequences are always +-1 vectors / permutations) *)
 Theorem cnfshuffle_outputs_when_drawn : forall rep env argv stdin oracle o N F,
